@@ -33,7 +33,7 @@ def c01_1(R):
         "Segments.snd_una+=1": ("Segments.snd_una", "add_assign", None),
     }
 
-    def balance(tags):
+    def balance(tags, has_count=False):
         miss = []
         ins = "ins" in tags
         remb = "rem_back" in tags
@@ -57,6 +57,8 @@ def c01_1(R):
             miss.append("front-removal(for Segments.snd_una+=1)")
         if remf and "acc(payload_size)" not in tags:
             miss.append("acc(payload_size->removed_offset)")
+        if remf and has_count and "acc(count)" not in tags:
+            miss.append("acc(1->acked_segments_count)")
         return miss
 
     total = 0
@@ -71,13 +73,25 @@ def c01_1(R):
                 if t.kind == "multi":
                     feed_locals.add(t.root[1])
 
-        def local_acc(body, it, feed_locals=feed_locals):
+        # ... and which local is reported as OnAckResult.acked_segments_count (it gates the ring truncation in the dispatcher)?
+        count_locals = set()
+        for s in b.stmts():
+            if s.rv.kind == "agg" and s.rv.j.get("adt") == "stream_tx_segments::OnAckResult":
+                i_ = s.rv.j["fields"].index("acked_segments_count")
+                cr = copy_root(b, s.rv.ops[i_])
+                if cr is not None:
+                    count_locals.add(cr)
+
+        def local_acc(body, it, feed_locals=feed_locals, count_locals=count_locals):
             lu = local_update(body, it)
             if lu and lu[0] in feed_locals and lu[1] == "+=" and _amount_is_payload_size(body, lu[2]):
                 return "acc(payload_size)"
+            if lu and lu[0] in count_locals and lu[1] == "+=" and lu[2].kind == "const" and lu[2].scalar == 1:
+                return "acc(count)"
             return None
 
-        n = container_accounting(R, b, "Segments.segments", counters, balance, "tx-accounting:" + b.name.split("::")[-1], local_acc=local_acc)
+
+        n = container_accounting(R, b, "Segments.segments", counters, (lambda tags, hc=bool(count_locals): balance(tags, hc)), "tx-accounting:" + b.name.split("::")[-1], local_acc=local_acc)
         total += n
         if n:
             touched += 1
